@@ -42,8 +42,9 @@ type Check struct {
 }
 
 type knobStats struct {
-	Accepted []instr.Knob `json:"shrunk_to_2_and_sequentially_equivalent"`
-	Rejected []string     `json:"rejected"`
+	WeakHash []instr.HashFunc `json:"narrow_hash_functions_weakened_to_3_bits"`
+	Accepted []instr.Knob     `json:"shrunk_to_2_and_sequentially_equivalent"`
+	Rejected []string         `json:"rejected"`
 }
 
 type growStats struct {
@@ -250,7 +251,7 @@ func (c *Check) equivalence() {
 	e := c.E
 	out := filepath.Join(e.Scratch, "seqall.tsv")
 	ses := &workerlib.Session{Mode: "seqall", Corpus: c.CorpusP, Seed: c.Seed, SeqOut: out, NSites: len(e.Report.Sites)}
-	pr := runWorker(e, ses, 2, 20*time.Minute)
+	pr := runWorker(e, ses, 1, 20*time.Minute)
 	if err := procOK(pr); err != nil {
 		harnessFail("equivalence stage: %v", err)
 	}
@@ -338,7 +339,7 @@ func (c *Check) sweepPairs() {
 			return
 		}
 		ses := &workerlib.Session{Mode: "pairs", Corpus: c.CorpusP, Seed: c.Seed, Worker: i, From: from, To: to, NSites: len(c.E.Report.Sites), Samples: b2i(i == 0)}
-		pr := runWorker(c.E, ses, 2, 15*time.Minute)
+		pr := runWorker(c.E, ses, 1, 15*time.Minute)
 		if err := procOK(pr); err != nil {
 			harnessFail("pair sweep: %v", err)
 		}
@@ -372,7 +373,7 @@ func (c *Check) sweepHist() {
 			return
 		}
 		ses := &workerlib.Session{Mode: "hist", Corpus: c.CorpusP, Seed: c.Seed, Worker: i, From: from, To: to, NSites: len(c.E.Report.Sites), DistinctPath: c.distinctPath()}
-		pr := runWorker(c.E, ses, 2, 15*time.Minute)
+		pr := runWorker(c.E, ses, 1, 15*time.Minute)
 		if err := procOK(pr); err != nil {
 			harnessFail("history sweep: %v", err)
 		}
@@ -386,7 +387,7 @@ func (c *Check) randomSearch(firstWorker, procs, runsPer int) {
 		w := firstWorker + i
 		ses := &workerlib.Session{Mode: "rand", Corpus: c.CorpusP, Seed: c.Seed, Worker: w, Runs: runsPer, SyncHeavy: c.SyncSeen,
 			NSites: len(c.E.Report.Sites), DistinctPath: c.distinctPath(), Samples: b2i(w < 3) * 2}
-		pr := runWorker(c.E, ses, 2, 15*time.Minute)
+		pr := runWorker(c.E, ses, 1, 15*time.Minute)
 		if err := procOK(pr); err != nil {
 			harnessFail("random search (worker %d): %v", w, err)
 		}
@@ -687,7 +688,7 @@ func (c *Check) sweepFamilies() {
 		}
 		// worker index parity (i / half) selects which API goes first
 		ses := &workerlib.Session{Mode: "family", Corpus: c.CorpusP, Seed: c.Seed &^ 1, Worker: i / half, From: from, To: to, NSites: len(c.E.Report.Sites), DistinctPath: c.distinctPath()}
-		pr := runWorker(c.E, ses, 2, 15*time.Minute)
+		pr := runWorker(c.E, ses, 1, 15*time.Minute)
 		if err := procOK(pr); err != nil {
 			harnessFail("family sweep: %v", err)
 		}
@@ -710,7 +711,7 @@ func (c *Check) smallVariant() bool {
 		}
 		out := filepath.Join(e.Scratch, "seqall_small.tsv")
 		ses := &workerlib.Session{Mode: "seqall", Corpus: c.CorpusP, Seed: c.Seed, SeqOut: out, Variant: "small"}
-		pr := runWorker(e, ses, 2, 20*time.Minute)
+		pr := runWorker(e, ses, 1, 20*time.Minute)
 		if pr.Summary == nil {
 			return false, "variant dies: " + tail(pr.Stderr, 300)
 		}
@@ -743,7 +744,7 @@ func (c *Check) smallVariant() bool {
 	}
 	c.Knob.Rejected = append(c.Knob.Rejected, fmt.Sprintf("all %d together: %s", len(knobs), why))
 	if len(knobs) == 1 {
-		e.Small = ""
+		delete(e.Variants, "small")
 		return false
 	}
 	// keep the knobs that are individually harmless
@@ -763,12 +764,12 @@ func (c *Check) smallVariant() bool {
 		}
 	}
 	if len(good) == 0 {
-		e.Small = ""
+		delete(e.Variants, "small")
 		return false
 	}
 	if ok, why := try(good); !ok {
 		c.Knob.Rejected = append(c.Knob.Rejected, "accepted knobs together: "+why)
-		e.Small = ""
+		delete(e.Variants, "small")
 		return false
 	}
 	c.Knob.Accepted = good
@@ -776,7 +777,7 @@ func (c *Check) smallVariant() bool {
 }
 
 // searchSmall: history sweep and seeded random search on the shrunk variant.
-func (c *Check) searchSmall(firstWorker, procs, runsPer int) {
+func (c *Check) searchVariant(name string, firstWorker, procs, runsPer int) {
 	reps, probes := workerlib.HistLists(c.Corpus)
 	total := len(reps) * len(probes) * 2
 	hp := c.NCPU
@@ -792,16 +793,16 @@ func (c *Check) searchSmall(firstWorker, procs, runsPer int) {
 			if from >= to {
 				return
 			}
-			ses = &workerlib.Session{Mode: "hist", Corpus: c.CorpusP, Seed: c.Seed, Worker: i, From: from, To: to, Variant: "small", DistinctPath: c.distinctPath()}
+			ses = &workerlib.Session{Mode: "hist", Corpus: c.CorpusP, Seed: c.Seed, Worker: i, From: from, To: to, Variant: name, DistinctPath: c.distinctPath()}
 		} else {
 			w := firstWorker + i - hp
-			ses = &workerlib.Session{Mode: "rand", Corpus: c.CorpusP, Seed: c.Seed ^ 0x5a11, Worker: w, Runs: runsPer, SyncHeavy: true, Variant: "small", DistinctPath: c.distinctPath()}
+			ses = &workerlib.Session{Mode: "rand", Corpus: c.CorpusP, Seed: c.Seed ^ 0x5a11, Worker: w, Runs: runsPer, SyncHeavy: true, Variant: name, DistinctPath: c.distinctPath()}
 		}
-		pr := runWorker(c.E, ses, 2, 15*time.Minute)
+		pr := runWorker(c.E, ses, 1, 15*time.Minute)
 		if err := procOK(pr); err != nil {
 			harnessFail("small-variant search: %v", err)
 		}
-		c.Agg.add("small_variant", pr)
+		c.Agg.add(name+"_variant", pr)
 	})
 }
 
@@ -827,10 +828,91 @@ func (c *Check) sweepRepeat() {
 			return
 		}
 		ses := &workerlib.Session{Mode: "repeat", Corpus: c.CorpusP, Seed: c.Seed, Worker: i, From: from, To: to, Runs: reps, NSites: len(c.E.Report.Sites), DistinctPath: c.distinctPath()}
-		pr := runWorker(c.E, ses, 2, 15*time.Minute)
+		pr := runWorker(c.E, ses, 1, 15*time.Minute)
 		if err := procOK(pr); err != nil {
 			harnessFail("repetition sweep: %v", err)
 		}
 		c.Agg.add("repeat_sweep", pr)
 	})
+}
+
+// sweepLongPairs: every ordered pair of long inputs as a two-call history.
+func (c *Check) sweepLongPairs() {
+	L := len(workerlib.LongList(c.Corpus))
+	total := L * L * 2
+	if total == 0 {
+		return
+	}
+	procs := c.NCPU * 2
+	per := (total + procs - 1) / procs
+	parallel(procs, c.NCPU, func(i int) {
+		from, to := i*per, (i+1)*per
+		if to > total {
+			to = total
+		}
+		if from >= to {
+			return
+		}
+		ses := &workerlib.Session{Mode: "longpairs", Corpus: c.CorpusP, Seed: c.Seed, Worker: i, From: from, To: to, SyncHeavy: c.SyncSeen, NSites: len(c.E.Report.Sites), DistinctPath: c.distinctPath()}
+		pr := runWorker(c.E, ses, 1, 15*time.Minute)
+		if err := procOK(pr); err != nil {
+			harnessFail("long-pair sweep: %v", err)
+		}
+		c.Agg.add("long_pair_sweep", pr)
+	})
+}
+
+// weakHashVariant: narrow (<=32-bit) hash functions are weakened to 3 bits.
+// If a sequential pass over the corpus then gives different results, the
+// library identifies keys by their hash alone: colliding keys exist for any
+// fixed-width hash, so results depend on which keys were seen before. The
+// difference is turned into an explicit history on the variant.
+func (c *Check) weakHashVariant() (equivalent bool) {
+	e := c.E
+	hs := e.Report.HashFuncs
+	if len(hs) == 0 {
+		return false
+	}
+	if err := prepareVariant(e, "weakhash", nil, hs, 3); err != nil {
+		c.Knob.Rejected = append(c.Knob.Rejected, "weakhash: "+err.Error())
+		return false
+	}
+	out := filepath.Join(e.Scratch, "seqall_weak.tsv")
+	ses := &workerlib.Session{Mode: "seqall", Corpus: c.CorpusP, Seed: c.Seed, SeqOut: out, Variant: "weakhash"}
+	pr := runWorker(e, ses, 1, 20*time.Minute)
+	if pr.Summary == nil {
+		c.Knob.Rejected = append(c.Knob.Rejected, "weakhash: variant dies: "+tail(pr.Stderr, 200))
+		delete(e.Variants, "weakhash")
+		return false
+	}
+	data, err := os.ReadFile(out)
+	if err != nil {
+		return false
+	}
+	lines := strings.Split(strings.TrimRight(string(data), "\n"), "\n")
+	if len(lines) != c.Corpus.Len() {
+		return false
+	}
+	c.Knob.WeakHash = hs
+	for i, l := range lines {
+		p := strings.Split(l, "\t")
+		for a := 0; a < 2; a++ {
+			r, _ := common.UnB64(p[2*a])
+			if r != c.Corpus.Ref[a][i] {
+				// history dependence through hash identity: rebuild it as a simulated history on the variant
+				rv := &refViolation{What: "with the narrow hash function(s) weakened to 3 bits a sequential pass gives a different result", API: a,
+					Input: common.B64(c.Corpus.In[i]), A: c.Corpus.Ref[a][i], B: r, Idx: i, Kind: "fresh"}
+				curVariant = "weakhash"
+				v, session := c.refToSession(rv)
+				curVariant = ""
+				if v != nil {
+					prx := &ProcResult{Session: &workerlib.Session{Mode: "explicit", Explicit: session, Variant: "weakhash"}, Violations: []*workerlib.Violation{v}}
+					c.Agg.Violations = append(c.Agg.Violations, &foundViolation{V: v, Proc: prx, Stage: "weak_hash_variant"})
+					c.Log("weak-hash variant: result of %s(%q) depends on earlier calls (%d-call history)", apiName(a), trunc(c.Corpus.In[i], 40), len(session[0].Tasks[0]))
+					return false
+				}
+			}
+		}
+	}
+	return true
 }
